@@ -1711,6 +1711,14 @@ def enumerate_c17(tier, seed):
         for a in range(6):
             for b in range(a + 1, 6):
                 yield plan({"kind": "mb_swap_hashes", "a": a, "b": b, "nth": 0})
+    # sampled big trees through the wire parser: dense match sets, so that the hash count and the flag-byte count of the merkleblock
+    # message cross the one-byte compact-size boundary (252/253 flag bytes need about a thousand matched leaves)
+    big = [(1100, 1), (1300, 2)] if tier == "quick" else [(1009, 1), (1011, 1), (1012, 1), (1013, 1), (1100, 1), (1300, 2), (2047, 1), (2048, 1), (3000, 3), (5000, 1), (5000, 7)]
+    for n, every in big:
+        base = _c17_base(seed, [n])
+        base["steps"] = [{"op": "filtered", "trigger": "getdata", "blocks": [0], "match": [[i for i in range(n) if i % every == 0]], "bf": {"size": 8, "funcs": 2, "tweak": n}}]
+        base["enum"] = "big-trees"
+        yield base
     # header batches: every position of a bad-PoW / broken-link / hard-bits header in a batch of 6
     for k in range(6):
         for kind in ("hdr_bad_pow", "hdr_break_link", "hdr_hard_bits", "hdr_txcount", "hdr_relink_valid"):
